@@ -61,6 +61,10 @@ type C16Sc struct {
 	// Mapped: the simulated nodes are known by the 16-byte (v4-mapped) form of their IPv4 addresses and
 	// name each other in nodes6 in that form, as dual-stack peers do
 	Mapped bool
+	// Security: BEP 42 is enforced. Nodes are advertised under IDs valid for their addresses; a node that
+	// lies answers under an ID that is not - it is heard (delivered on the peers channel) but cannot be a
+	// member of the closest set
+	Security bool
 }
 
 func genC16(t *rapid.T) C16Sc {
@@ -102,6 +106,7 @@ func genC16(t *rapid.T) C16Sc {
 	sc.LoopLast = uniformInt(t, 4, "looplast") == 0
 	sc.CloseAtAnnounce = sc.Stop == "none" && sc.QuiescentStop == "none" && uniformInt(t, 3, "closeatannounce") == 0
 	sc.Mapped = uniformInt(t, 4, "mapped") == 0
+	sc.Security = uniformInt(t, 4, "security") == 0
 	return sc
 }
 
@@ -132,7 +137,13 @@ func runC16(sc C16Sc, c *kit.Case) *kit.Violation {
 	if sc.Mapped {
 		c.Label("v4-mapped-nodes")
 	}
-	sv := newSrv(SrvOpts{NodeID: [20]byte{0xc1, 6}, Starting: seeds})
+	sv := newSrv(SrvOpts{NodeID: [20]byte{0xc1, 6}, Starting: seeds, Security: sc.Security})
+	if sc.Security {
+		c.Label("security-enforced")
+	}
+	insecure := func(id [20]byte, ip net.IP) bool {
+		return sc.Security && !refmodel.Bep42Exempt(ip) && !refmodel.Bep42Match(id, ip)
+	}
 	defer sv.Close()
 	if sc.LoopLast {
 		c.Label("run-loop-always-last")
@@ -146,6 +157,13 @@ func runC16(sc C16Sc, c *kit.Case) *kit.Violation {
 		answerID[i] = ids[i]
 		if nd.Lie {
 			answerID[i] = refmodel.WithPrefix(ih, (nd.IDCpl+7)%21, arr20(nd.IDTail))
+		}
+		if sc.Security {
+			// valid IDs for everybody; the liar's answer ID is (almost surely) not valid for its address
+			ids[i] = refmodel.Bep42Secure(ids[i], c16Addr(i).IP)
+			if !nd.Lie {
+				answerID[i] = ids[i]
+			}
 		}
 		if nd.OwnID {
 			answerID[i] = sv.ID
@@ -471,6 +489,9 @@ func runC16(sc C16Sc, c *kit.Case) *kit.Violation {
 		}
 		seenAddr[g.addr] = true
 		if tk := tokenOf[g.addr]; tk != nil {
+			if ua, err := net.ResolveUDPAddr("udp", g.addr); err == nil && insecure(g.id, ua.IP) {
+				continue // fails the lookup's node filter: heard, but not a candidate for the closest set
+			}
 			tokenBearers = append(tokenBearers, tb{g.addr, g.id, *tk})
 		}
 	}
@@ -492,6 +513,9 @@ func runC16(sc C16Sc, c *kit.Case) *kit.Violation {
 		tk, responded := tokenOf[to]
 		if !responded || tk == nil || !seenAddr[to] {
 			return kit.Violatef("C16:announce-to-non-responder", "%s, which did not answer get_peers with a token in this traversal", what)
+		}
+		if insecure(idOf[to], q.To.IP) {
+			return kit.Violatef("C16:announce-outside-closest-set", "%s, which answered under the ID %x that is not valid for its address (BEP 42 is enforced): it cannot be a member of the lookup's closest set", what, idOf[to])
 		}
 		wt, hasTok := q.Arg("token")
 		if (hasTok && wt.S != *tk) || (!hasTok && *tk != "") {
